@@ -5,16 +5,28 @@ from .. import rolllog_common as rc
 
 ID = 'C14'
 MODULES = ['OFModel.RollLog']
+PROP_FILES = ['C14', 'C14Stream']
 RULE = ('histories of a writer and a read-only RollLog(head=...) in a fresh temp directory: mode in {bin, binl, txt, json} x file_size in {1..30} x '
         'total_size in {12..unlimited} x autorefresh on/off; 2-6 reader incarnations, each doing reads/read_blocks, position saves (write_head), '
         'interleaved writes (strictly increasing timestamps; C13 covers repeated and backwards ones), prunes and external deletions, and ending by: a crash injected at one of the '
         'five points of write_head (before create-temp / after create / after a partial write / after close, before rename / after rename), a clean '
         'close(), or a stop without close; then a new RollLog(head=...) is constructed; the last incarnation drains the log. non-trivial = at least '
-        'one crash inside write_head and at least one record delivered after a restart')
+        'one crash inside write_head and at least one record delivered after a restart. Lean: lean/OFProps/C14.lean (per save / per restart) and '
+        'lean/OFProps/C14Stream.lean (C14_stream_across_restarts, C14_no_skip_across_restarts: all histories of this shape, by induction)')
 ASSUMPTIONS = ['process crash: kernel file state survives, POSIX rename is atomic, open(path,"w") truncates then writes',
                'one reader per head file; the reader does not seek explicitly between restarts',
                'write(flush=True) (the default): whole records only; a log file name is identified with its integer microsecond value',
-               'C14_no_skip is stated per restart (restart position = saved position, or the first existing file after it) and composes with C13_read_step']
+               'C14_no_skip is stated per restart (restart position = saved position, or the first existing file after it); '
+               'C14_stream_across_restarts (lean/OFProps/C14Stream.lean) composes it with C13_reader_stream over WHOLE histories: runs from the empty '
+               'directory with no head file on disk yet, without a writer restart, explicit timestamps > 0, and a reader that does not seek explicitly '
+               '(ReaderPlain: a seek into a record would make write_head save a mid-record offset - decided witness midSeekOps); any number of saves, '
+               'crashes at any of the file-system steps of write_head, closes and restarts: (1) at every restart the head file holds the last completed '
+               'save of the previous incarnation or the position of the save it crashed in, the constructor succeeds, the new incarnation stands at a '
+               'record boundary, at the saved position if that file is still in the directory and otherwise with nothing of the directory between the '
+               'saved and the start position; (2) every record ever written that lies before the final / saved position or a delivered record and was '
+               'handed to no incarnation was passed (by a read/refresh or by the re-basing of a restart) while its file was unlinked; (3) what each '
+               'incarnation is handed is a duplicate-free subsequence of what was written and contains nothing from before its start position, so only '
+               'records at or after the saved position can be handed out twice']
 TRUSTED = ['crash injection wraps builtins open/os.rename inside rolllog.write_head (harness/ofverif/rolllog_common.py Runner.save)']
 
 
